@@ -53,7 +53,10 @@ Snap(t, e) ==
   /\ SessOk(e)
   \* no task of the server outlives the session it belongs to, and closing the server completes (C12)
   /\ Set(e.zomb) \subseteq Set(e.gated)
-  /\ (e.closing /\ e.gated = <<>> => e.closeok)
+  \* (known finding close-waits-for-stalled-peer: a closed control connection with unsent replies and a peer that has stopped
+  \*  reading stays open, and keeps Server.close() waiting)
+  /\ (e.closing /\ e.gated = <<>> /\ ~e.closeok => "close-waits-for-stalled-peer" \in KF /\ e.stalled # <<>>)
+  /\ (e.stalled # <<>> => "close-waits-for-stalled-peer" \in KF)
   /\ (e.hastree => TreeOf(e.tree) = tree)
   /\ UNCHANGED <<tree, ss, uused, used, pool, table, srv>>
 
